@@ -59,6 +59,11 @@ type iobs = { i_text : coq_Z list; i_opts : Options.options; i_sub : bool; i_sta
               i_string : coq_Z list option; i_chars : coq_Z; i_lines : coq_Z }
 let parse_obs tok : iobs option =
   let first = Stdlib.List.hd (String.split_on_char ';' tok) in
+  let rec strip s =
+    if String.length s >= 2 && String.sub s 0 2 = "ND" then strip (String.sub s 2 (String.length s - 2))
+    else if String.length s >= 3 && String.sub s 0 3 = "MUT" then strip (String.sub s 3 (String.length s - 3))
+    else s in
+  let first = strip first in
   match String.split_on_char '|' first with
   | ["K"; text; opts; sub; s; e; str; ch; ln] ->
     (match opts_of_tok opts with
